@@ -461,6 +461,35 @@ func c13Case(r *Result, rng randLike, n int, backend string) {
 		o := objs[rng.IntN(len(objs))]
 		st := allStatuses[rng.IntN(4)]
 		var uerr error
+		// a third of the updates leave the state untouched and change only what else the row holds (the attempts of an
+		// action — what Runner.exec writes after every attempt while the action stays Running — or the plan's reason)
+		keepState := rng.IntN(3) == 0
+		switch x := o.(type) {
+		case *workflow.Action:
+			if keepState {
+				_, ptr := x.Req.(*PReq)
+				if rng.IntN(5) == 0 {
+					x.Attempts = nil
+				} else {
+					g.n++
+					at := &workflow.Attempt{Start: g.t(), End: g.t()}
+					if ptr {
+						at.Resp = &PResp{T: fmt.Sprintf("r%d", g.n), L: []int{g.n}}
+					} else {
+						at.Resp = Resp{T: fmt.Sprintf("r%d", g.n)}
+					}
+					x.Attempts = append(x.Attempts, at)
+				}
+				uerr = v.UpdateAction(ctx, x)
+				o = nil
+			}
+		case *workflow.Plan:
+			if keepState {
+				x.Reason = []workflow.FailureReason{workflow.FRUnknown, workflow.FRBlock, workflow.FRPostCheck, workflow.FRDeferredCheck, workflow.FRExceedRecovery}[rng.IntN(5)]
+				uerr = v.UpdatePlan(ctx, x)
+				o = nil
+			}
+		}
 		switch x := o.(type) {
 		case *workflow.Plan:
 			x.State = g.state(st)
